@@ -322,6 +322,14 @@ def check_C08(tier, seed):
     c = syscamp.Campaign("C08", tier, seed, own_ids=["C08"])
     try:
         c.build()
+        # the teardown protocol at design level: TLC refutes "every run returns" for the protocol as implemented (known finding D9) and
+        # proves it, within the bounds, for the variant in which thread 0 re-tests termination before opening a round in the main loop
+        c.mc_known_phase("GvtShutdown.tla", "GvtShutdown_q.cfg", "AllReturn", "D9", "GvtRound + votes + gvt_msg_drain (flush, barrier, two flushing rounds), "
+                         "2 threads: a round opened after the last vote is never joined by the threads already in the barrier", workers=8, timeout=900, heap="8g")
+        c.mc_phase("GvtShutdown.tla", "GvtShutdown_fix2.cfg", "the same with the re-test (candidate repair, single node): every run returns; 2 threads, one late voter",
+                   workers=8, timeout=900, heap="8g")
+        if tier == "thorough":
+            c.mc_phase("GvtShutdown.tla", "GvtShutdown_fix3.cfg", "re-test variant, 3 threads, one late voter", workers=8, timeout=1800, heap="8g")
         c.run(_models(tier, seed, ["mixed", "time0", "sparse", "single", "time0", "fanout", "initdone", "nonmono"], 8, 36), 5 if tier == "quick" else 12, emphasis=em)
         # predicates that first hold at a timestamp-0 event, one LP per thread (more threads requested than LPs: clamped): a thread whose
         # accounting goes wrong never votes and the run never ends
